@@ -1,6 +1,7 @@
 package main
 
 import (
+	"encoding/asn1"
 	"fmt"
 	"math/big"
 	"strings"
@@ -185,6 +186,27 @@ func genC01(r *rng, tier string, emit func(string)) {
 			}
 		}
 	}
+	// digests with leading zero bytes: Sm3Digest returns e.Bytes(), i.e. 31 bytes or fewer about once in 256
+	// messages; sm2.Verify takes the digest as an integer, of whatever length (also with zeros in front)
+	for i := 0; i < 3; i++ {
+		k := r.sm2key()
+		pub := pubFromXY(k.x, k.y)
+		for j := 0; j < 4000; j++ {
+			msg := []byte(fmt.Sprintf("message #%d/%d", i, j))
+			dg, err := pub.Sm3Digest(msg, nil)
+			if err != nil || len(dg) >= 32 {
+				continue
+			}
+			r2, s2, err := sm2.Sm2Sign(privFromD(k.d), msg, nil, &fixedRand{r.bytes(200)})
+			if err != nil {
+				break
+			}
+			emit(fmt.Sprintf("sm2verifye %s %s %s %s %s", bhex(k.x), bhex(k.y), hx(dg), bhex(r2), bhex(s2)))
+			emit(fmt.Sprintf("sm2verifye %s %s %s %s %s", bhex(k.x), bhex(k.y), hx(append(make([]byte, 32-len(dg)), dg...)), bhex(r2), bhex(s2)))
+			emit(fmt.Sprintf("sm2verifye %s %s %s %s %s", bhex(k.x), bhex(k.y), hx(append(make([]byte, 40-len(dg)), dg...)), bhex(r2), bhex(s2)))
+			break
+		}
+	}
 	// fresh randomness, delivered in pieces of 1 / 3 / 7 / 39 bytes or whole: no r twice
 	for _, chunk := range []int{1, 1, 3, 7, 39, 0} {
 		k := r.sm2key()
@@ -263,6 +285,9 @@ func genC01(r *rng, tier string, emit func(string)) {
 			}
 			vd := func(sig []byte) {
 				emit(fmt.Sprintf("sm2verifyder %s %s %s %s", bhex(k.x), bhex(k.y), hx(msg), hx(sig)))
+				// the same bytes through the TLS stack's handshake-signature verifier, both key representations
+				emit(fmt.Sprintf("tlssigv ecdsa %s %s %s %s", bhex(k.x), bhex(k.y), hx(msg), hx(sig)))
+				emit(fmt.Sprintf("tlssigv sm2 %s %s %s %s", bhex(k.x), bhex(k.y), hx(msg), hx(sig)))
 			}
 			vd(sig)
 			vd(append(append([]byte{}, sig...), 0)) // trailing byte after the SEQUENCE
@@ -396,6 +421,37 @@ func genC02(r *rng, tier string, emit func(string)) {
 			dec(k.d, ct[:len(ct)-1])
 			k2 := r.sm2key()
 			dec(k2.d, ct)
+			for t := 0; t < 6; t++ { // single-byte changes anywhere in the DER
+				m := append([]byte{}, ct...)
+				m[r.intn(len(m))] ^= byte(1 + r.intn(255))
+				dec(k.d, m)
+			}
+			// re-encoded forgeries: coordinates that are the genuine ones only modulo 2^256 (or 2^264), a
+			// digest or ciphertext field of another size, C1 = (1, 2)
+			var sc struct {
+				X, Y *big.Int
+				H, C []byte
+			}
+			if rest, err := asn1.Unmarshal(ct, &sc); err == nil && len(rest) == 0 {
+				re := func(x, y *big.Int, h, c []byte) {
+					sc2 := sc
+					sc2.X, sc2.Y, sc2.H, sc2.C = x, y, h, c
+					if b, err := asn1.Marshal(sc2); err == nil {
+						dec(k.d, b)
+					}
+				}
+				two256 := new(big.Int).Lsh(big.NewInt(1), 256)
+				re(sc.X, sc.Y, sc.H, sc.C) // as it was
+				re(new(big.Int).Add(sc.X, two256), sc.Y, sc.H, sc.C)
+				re(sc.X, new(big.Int).Add(sc.Y, two256), sc.H, sc.C)
+				re(new(big.Int).Add(sc.X, new(big.Int).Lsh(big.NewInt(int64(1+r.intn(127))), 256)), new(big.Int).Add(sc.Y, new(big.Int).Lsh(big.NewInt(1), 264)), sc.H, sc.C)
+				re(new(big.Int).Add(sc.X, sm2P), sc.Y, sc.H, sc.C)
+				re(sc.X, new(big.Int).Sub(sm2P, sc.Y), sc.H, sc.C)
+				re(sc.X, sc.Y, sc.H[:31], sc.C)
+				re(sc.X, sc.Y, append([]byte{0}, sc.H...), sc.C)
+				re(sc.X, sc.Y, sc.H, append(append([]byte{}, sc.C...), 0))
+				re(big.NewInt(1), big.NewInt(2), sc.H, sc.C)
+			}
 		}
 		// nonces for which a coordinate of the shared point [k]P has leading zero bytes (about 1 in 64): the
 		// KDF and C3 inputs are fixed-width 32-byte strings in GM/T 0003.4
@@ -519,6 +575,19 @@ func genC13(r *rng, tier string, emit func(string)) {
 	}
 	// the standard's example first
 	emit("sm2kex 16 31323334353637383132333435363738 31323334353637383132333435363738 81EB26E941BB5AF16DF116495F90695272AE2CD63D6C4AE1678418BE48230029 785129917D45A9EA5437A59356B82338EAADDA6CEB199088F14AE10DEFA229B5 D4DE15474DB74D06491C440D305E012400990F3E390C7E87153C12DB2EA60BB3 7E07124814B309489125EAED101113164EBF0F3458C5BD88335C1F9D596243D6")
+	// boundary private keys, long-term and ephemeral: 1 and 2 (public point G, [2]G) and n-1, n-2 (-G, -[2]G)
+	{
+		N := sm2.P256Sm2().Params().N
+		bd := []*big.Int{big.NewInt(1), big.NewInt(2), new(big.Int).Sub(N, big.NewInt(1)), new(big.Int).Sub(N, big.NewInt(2))}
+		for i := 0; i < 8; i++ {
+			ds := []*big.Int{r.sm2key().d, r.sm2key().d, r.sm2key().d, r.sm2key().d}
+			ds[i%4] = bd[(i/4*2+i)%4]
+			if i >= 4 {
+				ds[(i+2)%4] = bd[3-i%4]
+			}
+			emit(fmt.Sprintf("sm2kex %d %s %s %s %s %s %s", r.pick([]int{16, 32, 48}), id(), id(), bhex(ds[0]), bhex(ds[1]), bhex(ds[2]), bhex(ds[3])))
+		}
+	}
 	for i := 0; i < n; i++ {
 		a, b, ra, rb := r.sm2key(), r.sm2key(), r.sm2key(), r.sm2key()
 		klen := r.pick([]int{1, 16, 32, 33, 48, 64, 100, 1024})
